@@ -17,6 +17,7 @@ from contracts.C04_polars_api import CONTRACTS as POLARS_API
 from contracts.C05_component_restore import ColumnValidateRestoresSchema, RunSchemaComponentChecks
 from contracts.C02_coerce_helper import CoerceDtypeHelper
 from contracts.C06_run_checks import ArrayCollect, ArrayRunChecks, ColumnRunChecks, ContainerRunChecks
+from contracts.C05_multiindex_validate import MultiIndexValidate
 
 
 def strict(cls):
@@ -24,4 +25,4 @@ def strict(cls):
 
 
 CONTRACTS = [strict(c) for c in [ContainerValidate, SeriesSchemaValidate, ArrayValidate, IndexValidate, ColumnValidateRestoresSchema,
-                                 RunSchemaComponentChecks, ArrayRunChecks, ColumnRunChecks, ContainerRunChecks, CoerceDtypeHelper] + list(POLARS_API)]
+                                 RunSchemaComponentChecks, ArrayRunChecks, ColumnRunChecks, ContainerRunChecks, CoerceDtypeHelper, MultiIndexValidate] + list(POLARS_API)]
